@@ -1819,9 +1819,21 @@ impl SctpInner {
 
         for dc in channels_to_process {
             if dc.negotiated {
-                dc.state
-                    .store(DataChannelState::Open as usize, Ordering::SeqCst);
-                dc.send_event(DataChannelEvent::Open);
+                // Only the Connecting -> Open transition announces Open (as the DCEP
+                // ACK path does): a duplicated COOKIE ECHO / COOKIE ACK must neither
+                // emit a second Open nor re-open a channel that was closed.
+                if dc
+                    .state
+                    .compare_exchange(
+                        DataChannelState::Connecting as usize,
+                        DataChannelState::Open as usize,
+                        Ordering::SeqCst,
+                        Ordering::SeqCst,
+                    )
+                    .is_ok()
+                {
+                    dc.send_event(DataChannelEvent::Open);
+                }
             } else {
                 let state = dc.state.load(Ordering::SeqCst);
                 if state == DataChannelState::Connecting as usize
@@ -2231,9 +2243,21 @@ impl SctpInner {
 
         for dc in channels_to_process {
             if dc.negotiated {
-                dc.state
-                    .store(DataChannelState::Open as usize, Ordering::SeqCst);
-                dc.send_event(DataChannelEvent::Open);
+                // Only the Connecting -> Open transition announces Open (as the DCEP
+                // ACK path does): a duplicated COOKIE ECHO / COOKIE ACK must neither
+                // emit a second Open nor re-open a channel that was closed.
+                if dc
+                    .state
+                    .compare_exchange(
+                        DataChannelState::Connecting as usize,
+                        DataChannelState::Open as usize,
+                        Ordering::SeqCst,
+                        Ordering::SeqCst,
+                    )
+                    .is_ok()
+                {
+                    dc.send_event(DataChannelEvent::Open);
+                }
             } else {
                 let state = dc.state.load(Ordering::SeqCst);
                 if state == DataChannelState::Connecting as usize
